@@ -65,12 +65,12 @@ def run(ctx):
         ctx.design("Json/JsonParse.tla", "JsonTree_quick.cfg", workers=W, timeout=300, note="all trees depth<=2 width<=2 (all member orders), MaxDepth=1")
         ctx.design("Json/JsonParse.tla", "JsonTreeRich_quick.cfg", workers=W, timeout=300, note="depth<=1 width<=2, all scalar kinds / awkward strings")
     else:
-        ctx.design("Json/JsonTokCheck.tla", "JsonTokCheck.cfg", workers=W, timeout=1500, heap="16g", note="string bodies <=4 items x 32 classes; number spellings <=7")
-        ctx.design("Json/JsonParse.tla", "JsonWalk.cfg", workers=W, timeout=1500, heap="16g", note="token walk <=11 tokens, MaxDepth=3")
-        ctx.design("Json/JsonParse.tla", "JsonTree.cfg", workers=W, timeout=1500, heap="16g", note="all trees depth<=2 width<=2, MaxDepth=2")
-        ctx.design("Json/JsonParse.tla", "JsonTree_quick.cfg", workers=W, timeout=1500, heap="16g", note="same trees, MaxDepth=1 (bound crossed)")
-        ctx.design("Json/JsonParse.tla", "JsonTreeDeep.cfg", workers=W, timeout=1500, heap="16g", note="depth<=3 width<=1 rich scalars, MaxDepth=2")
-        ctx.design("Json/JsonParse.tla", "JsonTreeRich.cfg", workers=W, timeout=1500, heap="16g", note="depth<=1 width<=3 rich scalars")
+        ctx.design("Json/JsonTokCheck.tla", "JsonTokCheck.cfg", workers=W, timeout=1500, heap="6g", note="string bodies <=4 items x 32 classes; number spellings <=6")
+        ctx.design("Json/JsonParse.tla", "JsonWalk.cfg", workers=W, timeout=1500, heap="6g", note="token walk <=11 tokens, MaxDepth=3")
+        ctx.design("Json/JsonParse.tla", "JsonTree.cfg", workers=W, timeout=1500, heap="6g", note="all trees depth<=2 width<=2, MaxDepth=2")
+        ctx.design("Json/JsonParse.tla", "JsonTree_quick.cfg", workers=W, timeout=1500, heap="6g", note="same trees, MaxDepth=1 (bound crossed)")
+        ctx.design("Json/JsonParse.tla", "JsonTreeDeep.cfg", workers=W, timeout=1500, heap="6g", note="depth<=3 width<=1 rich scalars, MaxDepth=2")
+        ctx.design("Json/JsonParse.tla", "JsonTreeRich.cfg", workers=W, timeout=1500, heap="6g", note="depth<=1 width<=3 rich scalars")
     ctx.extra["exhaustive"] = True
     # ---------------------------------------------------------------- Leg B
     exe = ctx.harness("json_drv", ["json/json_drv.cpp"])
